@@ -1,6 +1,7 @@
 import XmppModel.Model.Serve
 import XmppModel.Lemmas.Serve
 import XmppModel.Lemmas.ServeView
+import XmppModel.Generated.C07
 /-!
 # C07 — every incoming get/set IQ is answered exactly once; replies are never answered
 
@@ -334,6 +335,44 @@ theorem C07_session_answered_once (cfg : Cfg) (pre post : List Case) (c : Case) 
   injection hadd with hadd
   simp only [Case.written, ← hadd]
   exact hrep
+
+/-! ### every write path of the handler's encoder runs the detector -/
+
+/-- the three methods a handler can write with -/
+inductive WriteMethod | encodeToken | encode | encodeElement
+  deriving DecidableEq, Repr
+
+/-- where a method of `responseChecker` sends its tokens, as read from the source: through the
+checker's own `EncodeToken` (`true`) or around it -/
+def routesThroughChecker (paths : List (String × String)) (m : WriteMethod) : Bool :=
+  match m with
+  | .encodeToken => paths.contains ("EncodeToken", "detector checker.TokenWriter.EncodeToken")
+  | .encode => paths.contains ("Encode", "marshal.EncodeXML(checker)")
+  | .encodeElement => paths.contains ("EncodeElement", "marshal.EncodeXMLElement(checker)")
+
+/-- **tie to the source (regenerated from the AST of session.go on every run)**: `responseChecker`
+has exactly three writing methods; `Encode` and `EncodeElement` marshal into the checker itself
+(so every token they produce passes `EncodeToken`), and `EncodeToken` runs the detector before
+it hands the token to the session's writer — no method writes around the detector -/
+theorem C07_gen_write_paths :
+    Generated.C07.writePaths = some [
+      ("Encode", "marshal.EncodeXML(checker)"),
+      ("EncodeElement", "marshal.EncodeXMLElement(checker)"),
+      ("EncodeToken", "detector checker.TokenWriter.EncodeToken")] ∧
+    ∃ paths, Generated.C07.writePaths = some paths ∧ paths.length = 3 ∧
+      ∀ m : WriteMethod, routesThroughChecker paths m = true := by
+  refine ⟨by decide, _, rfl, by decide, ?_⟩
+  intro m
+  cases m <;> decide
+
+/-- the detector's verdict depends only on the tokens that the handler's writes put on the
+stream, in order — not on how they were grouped into calls, nor (given `C07_gen_write_paths`)
+on which of the three methods produced them: any two programs with the same token stream and
+the same reads set the flag identically and write the same tokens -/
+theorem C07_detector_depends_on_tokens_only (id : String) (ops1 ops2 : List Op) (e : ES) (w : WS)
+    (h : writesOf ops1 = writesOf ops2) :
+    (runOps id ops1 e w []).2.2 = (runOps id ops2 e w []).2.2 := by
+  rw [runOps_ws, runOps_ws, h]
 
 /-! ### pending local requests and handlers that return an error -/
 
